@@ -4,7 +4,7 @@
    and stays in that state; once no frame remains the frame-level calls report end-of-image and row calls `no more rows`, leaving the state
    unchanged; no call from ANY state reaches an assertion, unwrap or underflow.  (Stream machine) after a fatal error the decoder is poisoned
    and every update returns PolledAfterFatalError at once without touching the state (every error poisons: C07 theorem); reset() yields exactly
-   the state of a newly created decoder with the same options, remaining limit, buffer capacity and Adler flag.  NOT PROVED: that Reader-level
+   the state of a newly created decoder with the same options, remaining limit and Adler flag - the chunk buffer is back at its initial capacity (after the repair of reset(): a grown buffer made the next stream's large chunks come out with fewer PartialChunk events than a new decoder reports).  NOT PROVED: that Reader-level
    errors which do not poison the stream (undefined filter byte, missing data) never lead to a later success for the same frame - decided by the
    harness (continuations after the first error on files failing at every stage) together with all ordered reset pairs. *)
 From Coq Require Import List Arith Bool Lia.
@@ -49,17 +49,15 @@ Theorem C18_poisoned_decoder_answers_at_once :
        st s = None -> update zinf zall utf8_valid s buf = (s, UErr EParamPolledAfterFatal).
 Proof. exact poisoned_is_absorbing. Qed.
 
-(* reset() *)
+(* reset(): the initial state for the same options and remaining limit, with the inflater reset *)
 Theorem C18_reset_gives_a_fresh_decoder :
-  forall s : dstate,
-       reset_model s = init_state (opts s) (budget s) <| c_cap := c_cap s |> <| infl := zreset (infl s) |>.
+  forall s : dstate, reset_model s = init_state (opts s) (budget s) <| infl := zreset (infl s) |>.
 Proof. exact reset_is_fresh. Qed.
 
-(* reset() of a decoder whose Adler flag and buffer capacity are the initial ones IS the initial state *)
+(* reset() of a decoder whose Adler flag is the one its options give IS the initial state (no premise about the buffer any more) *)
 Theorem C18_reset_gives_exactly_the_initial_state :
   forall s : dstate,
-       z_ignore_adler (infl s) = o_ignore_adler (opts s) ->
-       c_cap s = CHUNK_BUFFER_SIZE -> reset_model s = init_state (opts s) (budget s).
+       z_ignore_adler (infl s) = o_ignore_adler (opts s) -> reset_model s = init_state (opts s) (budget s).
 Proof. exact reset_is_fresh_exact. Qed.
 
 Example C18_nonvacuous :
